@@ -151,6 +151,22 @@ fn cubic_tag(c0: f64, c1: f64, c2: f64, c3: f64, n: usize) -> &'static str {
     }
 }
 
+/// the clamp `d0.min(0.0)` of solve_cubic is active: d >= 0 with d0 rounded to a positive value (near a triple
+/// root). Then t = 0 and every returned value is -c2 exactly, so the outputs can be compared exactly.
+fn cubic_clamp_active(c0: f64, c1: f64, c2: f64, c3: f64) -> bool {
+    let c3_recip = c3.recip();
+    const ONETHIRD: f64 = 1. / 3.;
+    let (c2, c1, c0) = (c2 * (ONETHIRD * c3_recip), c1 * (ONETHIRD * c3_recip), c0 * c3_recip);
+    if !(c0.is_finite() && c1.is_finite() && c2.is_finite()) {
+        return false;
+    }
+    let d0 = (-c2).mul_add(c2, c1);
+    let d1 = (-c1).mul_add(c2, c0);
+    let d2 = c2 * c0 - c1 * c1;
+    let d = 4.0 * d0 * d2 - d1 * d1;
+    d >= 0.0 && d0 > 0.0
+}
+
 /// scaled coefficients of moderate size: the libm-class values stay below ~1e4 in magnitude
 fn gen_cubic_moderate(r: &mut Rng) -> [f64; 4] {
     let s = scale(r) * if r.bool() { -1.0 } else { 1.0 };
@@ -176,7 +192,17 @@ fn gen_cubic_moderate(r: &mut Rng) -> [f64; 4] {
 }
 
 fn gen_cubic_wild(r: &mut Rng) -> [f64; 4] {
-    match r.below(10) {
+    match r.below(13) {
+        10 | 11 | 12 => {
+            // s (x - a)^3 with coefficients that are not exact: d0 and d are pure rounding noise of either sign
+            let a = match r.below(3) {
+                0 => r.range_i(-99, 99) as f64 / 10.0,
+                1 => r.uniform(-10.0, 10.0),
+                _ => r.generic(-6, 6),
+            };
+            let s = *r.pick(&[1e-6, 1.0, 3.0, 0.1, 7e3]) * if r.bool() { 1.0 } else { r.generic(-3, 3) };
+            [-s * a * a * a, 3.0 * s * a * a, -3.0 * s * a, s]
+        }
         0 => {
             // exact double root (x-a)^2 (x-b), 2a+b divisible by 3: scaled coefficients are integers, d = 0 exactly
             let a = r.range_i(-6, 6);
@@ -355,6 +381,49 @@ fn gen_itp(r: &mut Rng) -> Option<Vec<f64>> {
 /// evaluation budget for solve_itp: a run that needs more has lost its termination argument
 const ITP_MAX_EVALS: u64 = 100_000;
 
+/// cases for the float-only paths of solve_itp: a bracket of adjacent (or nearly adjacent) floats with epsilon
+/// below their distance (the "collapsed bracket" exit), and n0 + n1_2 >= 64 (saturating add, capped power of two)
+fn gen_itp_extreme(r: &mut Rng) -> Option<Vec<f64>> {
+    let n0 = *r.pick(&[0.0, 1.0, 2.0, 63.0, 64.0, 1000.0, 18446744073709551616.0]);
+    let tiny_eps = |r: &mut Rng, w: f64| -> f64 {
+        match r.below(5) {
+            0 => 0.0,
+            1 => 5e-324,
+            2 => 1e-300,
+            _ => w * 2f64.powi(-(r.range_i(3, 200) as i32)) * r.uniform(0.55, 0.95),
+        }
+    };
+    if r.bool() {
+        // a few ulps wide
+        let a = r.generic(-2, 3);
+        let k = r.range_i(1, 4) as u64;
+        let b = if a > 0.0 { f64::from_bits(a.to_bits() + k) } else { f64::from_bits(a.to_bits() - k) };
+        let c = if a > 0.0 { f64::from_bits(a.to_bits() + r.below(k + 1)) } else { f64::from_bits(a.to_bits() - r.below(k + 1)) };
+        let eps = tiny_eps(r, b - a);
+        let k1 = if r.bool() { 0.2 / (b - a) } else { r.uniform(0.1, 2.0) };
+        // ya, yb are arguments of solve_itp: any values with the right signs
+        Some(vec![-c, 1.0, 0.0, 0.0, a, b, eps, n0, k1, -r.generic(-70, 0).abs(), r.generic(-70, 0).abs()])
+    } else {
+        let a = r.uniform(-3.0, 3.0);
+        let b = a + r.generic(-3, 2).abs();
+        let c = a + (b - a) * r.uniform(0.05, 0.95);
+        let p: Vec<f64> = if r.bool() {
+            vec![-c, 1.0, 0.0, 0.0]
+        } else {
+            let m = r.uniform(0.1, 3.0);
+            vec![-c * c * c - m * c, 3.0 * c * c + m, -3.0 * c, 1.0]
+        };
+        let (ya, yb) = (poly3(&p, a), poly3(&p, b));
+        if !(ya < 0.0 && yb > 0.0) {
+            return None;
+        }
+        let eps = tiny_eps(r, b - a);
+        let mut v = p;
+        v.extend_from_slice(&[a, b, eps, n0, 0.2 / (b - a), ya, yb]);
+        Some(v)
+    }
+}
+
 fn run_itp(v: &[f64]) -> Option<(f64, u64)> {
     let p = v[0..4].to_vec();
     let v = v.to_vec();
@@ -408,7 +477,10 @@ fn corr(r: &mut Rng, thorough: bool, o: &mut Out) {
         let c = gen_cubic_wild(r);
         let out = solve_cubic(c[0], c[1], c[2], c[3]);
         let tag = cubic_tag(c[0], c[1], c[2], c[3], out.len());
-        if tag == "delegates-to-quadratic" || tag == "double-root(d=0)" {
+        if cubic_clamp_active(c[0], c[1], c[2], c[3]) {
+            // t = 2 sqrt(-0) = 0: all values are -c2 exactly, whatever sin/cos/atan2 return
+            o.case(4, "solve_cubic:exact-paths", c.to_vec(), len_out(&out), true, &format!("clamp-active(d0>0,d>=0):{}", out.len()));
+        } else if tag == "delegates-to-quadratic" || tag == "double-root(d=0)" {
             // only + - * / sqrt copysign fma: exact
             o.case(4, "solve_cubic:exact-paths", c.to_vec(), len_out(&out), true, tag);
         } else {
@@ -489,6 +561,27 @@ fn corr(r: &mut Rng, thorough: bool, o: &mut Out) {
             let tag = if poly3(&v[0..4], x) == 0.0 { "exact-zero" } else if iters == 0 { "no-iteration" } else { "bracket" };
             o.case(11, "solve_itp", args, vec![1.0, x, 1.0], iters > 0, tag);
             k += 1;
+        }
+    }
+    let mut k = 0;
+    let mut tries = 0;
+    while k < n / 6 && tries < 10 * n {
+        tries += 1;
+        if let Some(v) = gen_itp_extreme(r) {
+            let l = ((v[5] - v[4]) / v[6]).log2();
+            if l.is_finite() && (l - l.round()).abs() < 1e-9 {
+                continue;
+            }
+            // (termination in floats is not claimed for these inputs beyond the two repaired causes: skip on the cap)
+            if let Some((x, iters)) = run_itp(&v) {
+                let mut args = v.clone();
+                args.push(iters as f64);
+                let nmax_big = v[7] >= 64.0 || !(l < 60.0);
+                let collapsed = poly3(&v[0..4], x) != 0.0 && 2.0 * v[6] < (f64::from_bits(x.abs().to_bits() + 1) - x.abs());
+                let tag = format!("{}{}", if collapsed { "collapsed-bracket-exit" } else { "regular-exit" }, if nmax_big { ":nmax>=64" } else { "" });
+                o.case(11, "solve_itp:float-limits", args, vec![1.0, x, 1.0], true, &tag);
+                k += 1;
+            }
         }
     }
 }
@@ -1162,6 +1255,12 @@ fn g_itp(r: &mut Rng) -> Vec<f64> {
     let a = r.uniform(-3.0, 3.0);
     let b = a + 10f64.powf(r.uniform(-3.0, 0.7));
     let z = a + (b - a) * r.uniform(0.001, 0.999);
+    if r.chance(1, 8) {
+        // epsilon below the resolution of f64 at the bracket, nmax >= 64 (repair commit 75101ed): the solver must
+        // still return, within a few ulps of the zero
+        let eps = (b - a) * 2f64.powi(-(r.range_i(56, 140) as i32)) * r.uniform(0.55, 0.95);
+        return vec![kind, z, a, b, eps, *r.pick(&[0.0, 1.0, 64.0]), 0.0];
+    }
     let eps = (b - a) * 10f64.powf(r.uniform(-9.0, -0.3));
     vec![kind, z, a, b, eps, r.below(3) as f64, r.below(3) as f64]
 }
@@ -1213,6 +1312,28 @@ fn law_itp(v: &[f64]) -> Option<(String, String)> {
     None
 }
 
+/// s (x - a)^3 with inexact coefficients: a triple root is not "separated", so any count 1..3 is accepted, but
+/// every returned value must be finite and within the cube-root sensitivity (eps^(1/3) ~ 6e-6) of a
+fn g_triple(r: &mut Rng) -> Vec<f64> {
+    let a = match r.below(3) {
+        0 => r.range_i(-99, 99) as f64 / 10.0,
+        1 => r.uniform(-10.0, 10.0),
+        _ => r.generic(-6, 6),
+    };
+    vec![a, law_scale(r)]
+}
+fn law_triple(v: &[f64]) -> Option<(String, String)> {
+    let (a, s) = (v[0], v[1]);
+    let c = [-s * a * a * a, 3.0 * s * a * a, -3.0 * s * a, s];
+    let got = solve_cubic(c[0], c[1], c[2], c[3]);
+    if got.is_empty() || got.len() > 3 || got.iter().any(|x| !x.is_finite() || (x - a).abs() > 1e-4 * a.abs()) {
+        return fail("solve_cubic:triple-root", format!("solve_cubic{:?} = {:?}; triple root {}", c, got, a));
+    }
+    None
+}
+fn w_triple(a: &[f64]) -> Option<(String, String)> {
+    finish(law_triple(a), None)
+}
 fn w_from_roots(a: &[f64]) -> Option<(String, String)> {
     finish(law_from_roots(a), Some(build_from_roots(a).0))
 }
@@ -1255,6 +1376,7 @@ fn laws() -> Vec<Law> {
         Law { name: "quartic_from_roots", gen: g_roots4, check: w_from_roots, weight: 4 },
         Law { name: "integer_coefficients", gen: g_int, check: w_int, weight: 4 },
         Law { name: "quartic_structured", gen: g_quartic_structured, check: w_quartic_structured, weight: 3 },
+        Law { name: "cubic_triple_root", gen: g_triple, check: w_triple, weight: 1 },
         Law { name: "raised_degree", gen: g_raised, check: w_raised, weight: 3 },
         Law { name: "itp_monotone", gen: g_itp, check: w_itp, weight: 2 },
     ]
